@@ -242,6 +242,27 @@ def unicode_space_exhaustive(maxlen):
                     yield "".join(tup)
 
 
+# ------------------------------------------------------------------ deep nesting
+DEPTHS = [255, 256, 257, 258, 300, 511, 512, 513, 1000, 1024]
+DEEP_DEPTHS = [2048, 4096, 5000]          # far below the parser.stack-depth known finding (millions of levels)
+DEEP_OPEN = ["a{", "a x{", 'a "s" {', "a 'q'+\"r\"{", "a{c;", "a\n{\n", "pattern \"\\d\" {", "é\t{ // c\n"]
+
+
+def deep_texts(depths, opens=None):
+    """balanced texts nested d deep (with / without arguments, strings, siblings, line breaks at every level) and unbalanced ones"""
+    out = []
+    for d in depths:
+        for k, o in enumerate(opens or DEEP_OPEN):
+            out.append(o * d + "b;" + "}" * d)
+            if k < 2:
+                out.append(o * d + "}" * d)                       # innermost block empty
+                out.append(o * d + "b;" + "}" * (d - 1))           # one closing brace missing
+                out.append(o * d + "b;" + "}" * (d + 1))           # one too many
+                out.append(o * d + "b;")                           # none closed
+                out.append(o * d + "b;" + "} z;" * d)              # a sibling after every block
+    return out
+
+
 def token_sequences(maxlen, minlen=0, alphabet=None):
     for n in range(minlen, maxlen + 1):
         for seq in itertools.product(alphabet or TOKEN_ALPHABET, repeat=n):
@@ -271,6 +292,9 @@ def gen(tier, seed):
         add("unicode-space", t)
     for t in unicode_space_exhaustive(3 if tier == "quick" else 4):
         add("unicode-space-exhaustive", t)
+    # deep nesting (the extracted model takes about 1 s at depth 1000, 45 s at 5000: the model goes up to 513 here, 1024 thorough)
+    for t in deep_texts([255, 256, 257, 513] if tier == "quick" else DEPTHS, ["a{", "a\n{\n", "é\t{ // c\n"]):
+        add("deep", t)
     # well-formed texts under layout noise
     nwf = 6000 if tier == "quick" else 120000
     for _ in range(nwf):
@@ -552,6 +576,10 @@ def long_line_cases(tier):
         out.append(("brace2", lead + p + "@@} a b; @@}"))
         out.append(("quoted-keyword", lead + p + "@@'k' v;"))
         out.append(("syntax", lead + p + "a b @@'c'@@;"))
+    for d in DEPTHS[-2:] + DEEP_DEPTHS:
+        out.append(("accept", "@@a\t{\n" * d + "@@b 'x\ny';" + "\n}" * d))
+        out.append(("accept", "@@é x{" * d + "}" * d))
+        out.append(("brace", "a{" * d + "}" * d + "\n\t@@}"))
     return out
 
 
